@@ -1,6 +1,7 @@
 package main
 
 import (
+	"bytes"
 	"encoding/hex"
 	"encoding/json"
 	"fmt"
@@ -130,7 +131,7 @@ func genAlloc(seed uint64, index int, tier string) *AScenario {
 			h := genHaystack(vr, sc.Pattern, re, a, pick(vr, []int{1, 2, 2, 3}))
 			if len(h) > 0 && vr.p(2, 3) {
 				// spread the lengths: every input its own size, not a handful of classes
-				want := vr.between(1, 9000)
+				want := vr.between(1, 4000)
 				for len(h) < want {
 					h = append(h, h...)
 				}
@@ -490,6 +491,7 @@ func runAlloc(sc *AScenario) *AOutcome {
 				vb[j], vb[j-1] = vb[j-1], vb[j]
 			}
 		}
+		var varietyBuf [][2]int
 		use := func(b []byte) {
 			n := len(b)
 			if n*(n/64+1)/1000*nfaSize > 50000 {
@@ -499,6 +501,9 @@ func runAlloc(sc *AScenario) *AOutcome {
 			re.FindSubmatchIndex(b)
 			re.Match(b)
 			re.ReplaceAllLiteral(b, nil)
+			varietyBuf = re.AppendAllIndex(varietyBuf[:0], b, -1)
+			re.FindAllSubmatchIndex(b, 3)
+			re.FindReaderIndex(bytes.NewReader(b))
 		}
 		warm := 10
 		for _, b := range vb[:warm] {
